@@ -1,7 +1,7 @@
 (* C04 - the obligations about the REGENERATED layouts (Gen/PacketLayouts.v, translated from the Go
    source on every run) and the closed round-trip theorem for every fragment type. *)
 From Coq Require Import List NArith ZArith String Bool Lia.
-From Verif Require Import Base.Hex Model.Layout Model.LayoutPrims Gen.PacketLayouts Proofs.C04_layout Proofs.C04_prims.
+From Verif Require Import Base.Hex Model.Layout Model.LayoutPrims Gen.PacketLayouts Proofs.C04_layout Proofs.C04_prims Proofs.GenLemmas.
 Import ListNotations.
 Open Scope string_scope.
 
@@ -14,11 +14,6 @@ Definition check_entry (e : entry) : bool :=
   | Fragment _ enc dec ctxs => forallb (check_at enc dec) ctxs
   | Opaque _ _ _ => true
   end.
-
-Definition entry_name (e : entry) : string :=
-  match e with Fragment n _ _ _ => n | Opaque n _ _ => n end.
-
-Definition is_fragment (e : entry) : bool := match e with Fragment _ _ _ _ => true | _ => false end.
 
 (* the types whose two layouts disagree somewhere - printed by Coq when the obligation fails *)
 Definition failing : list string := map entry_name (filter (fun e => negb (check_entry e)) packets).
@@ -48,13 +43,6 @@ Definition left_fragment : list string := filter (fun n => negb (existsb (String
 
 Theorem C04_pinned : left_fragment = [].
 Proof. vm_compute. reflexivity. Qed.
-
-Lemma filter_nil {A} (f : A -> bool) l : filter f l = [] -> forall x, In x l -> f x = false.
-Proof.
-  induction l as [|a r IH]; intros H x Hx; [destruct Hx|].
-  cbn [filter] in H. destruct (f a) eqn:E; [discriminate|].
-  destruct Hx as [->|Hx]; [exact E | apply IH; assumption].
-Qed.
 
 Lemma all_entries_checked : forall e, In e packets -> check_entry e = true.
 Proof.
